@@ -1,11 +1,21 @@
 """C05 — see DESIGN.md section 5; units and contracts live in ws_units.py (shared WebSocketProtocol family)."""
 from . import ws_units, ws_common
 
+
+def replay(o):
+    unit = o.get("unit") or o.get("name", "")
+    if any(k in unit for k in ("beginMessage", "sendMessageFrame", "endMessage")):
+        from . import ws_pair_harness
+        return ws_pair_harness.run("streaming")
+    return {"reproduced": False, "detail": "no replay harness for this unit"}
+
 ASSUMPTIONS = list(ws_common.ASSUMPTIONS)
 
 
 def build(reg):
     ws_units.build(reg)
+    from . import ws_streaming
+    ws_streaming.build(reg, standalone=True)
 
 
 def extra_checks(tier, seed):
@@ -14,4 +24,10 @@ def extra_checks(tier, seed):
     out = []
     for name, (hyps, goal) in ws_common.ws_lemma_obligations():
         out.append(solve("%s/lemma/" % __name__.split(".")[-1].upper() + name, hyps, goal, 20000))
+    if tier == "thorough":
+        from pyvc import replaylib as R
+        from . import ws_pair_harness as H
+        out.append(R.native_crosscheck("C05/bounded/streaming-send-around-every-close", H.HARNESS % {"mode": "streaming"},
+                                       "both roles x 5 ways of leaving OPEN x every point of a streamed message x failByDrop; "
+                                       "frame lengths at the 7 / 16 / 64-bit boundaries, real client / server pair"))
     return out
